@@ -41,6 +41,23 @@ def entry_summary(S, e):
     return res
 
 
+_trace_cache = {}
+_CC.append(_trace_cache)
+
+
+def entry_trace(S, e):
+    """(trace, problems, raised) of one catalogue entry WITHOUT symbolic execution of the store (aliasing / effect rules)"""
+    k = (id(S), e.label())
+    if k not in _trace_cache:
+        gen_opts, call_kwargs, extra = e.build(S)
+        try:
+            fn = S.gen(e.gen, real_t=S.real_t, **gen_opts)
+            _trace_cache[k] = S.trace_call(fn, **call_kwargs)
+        except RaisedInAnalysed as ex:
+            _trace_cache[k] = ([], [], ex)
+    return _trace_cache[k]
+
+
 def filter_orders(tier, field_type="scalar"):
     """filter orders analysed per tier: the symbolic cost of the iterated stencil grows about 4x per order (the kernel's own loop
     `for _ in range(filter_order)` is unrolled); orders above the thorough bound are outside the analysed set (evidence says so)"""
